@@ -215,6 +215,32 @@ theorem C08_extreme_keys (ks : List (List Nat)) (f l : List Nat)
   exact ⟨by simpa [lexLe] using leftmostT_min _ f hw hf k hm,
          by simpa [lexLe] using rightmostT_max _ l hw hl k hm⟩
 
+/-- The label search of the probe (`simd_first_ge`, `simd_last_le`), modelled chunk by chunk
+with the lane count and the width the lane mask is narrowed to **as read from the source**
+(`Snel.Gen.C08.surf{Ge,Le}{Lanes,MaskBits}`): for every label slice and byte it is exactly
+"first index with `label ≥ tb`" resp. "last index with `label ≤ tb`" — i.e. the plain scan the
+tree-level search (`geqK` / `leqK`) does. The side conditions `lanes ≤ maskBits` / `lanes =
+maskBits` are closed by `decide` on the extracted constants, so widening the lanes without
+widening the mask breaks this theorem. Tie of the chunk loop itself to the Rust code: `lbl`
+stream (every label-array length 0..=70, 96, 128, 255, 256 × every probe byte × 4 bounds) and
+`dense` stream. -/
+theorem C08_simd_label_search_spec (slice : List Nat) (tb : Nat) :
+    Flat.simdFirstGe surfGeLanes surfGeMaskBits slice tb (slice.length + 1) 0
+      = Flat.firstTrue (slice.map fun v => decide (tb ≤ v)) ∧
+    Flat.simdLastLe surfLeLanes surfLeMaskBits slice tb (slice.length + 1) slice.length
+      = Flat.lastTrue (slice.map fun v => decide (v ≤ tb)) := by
+  constructor
+  · have h := simdFirstGe_spec surfGeLanes surfGeMaskBits (by decide) slice tb (slice.length + 1) 0 (by omega)
+    rw [h]
+    simp only [List.drop_zero]
+    cases Flat.firstTrue (slice.map fun v => decide (tb ≤ v)) <;> simp
+  · have e : surfLeMaskBits = surfLeLanes := by decide
+    rw [e, simdLastLe_spec surfLeLanes slice tb (slice.length + 1) slice.length (by omega) (Nat.le_refl _)]
+    simp only [List.take_length]
+
+example : Flat.simdFirstGe surfGeLanes surfGeMaskBits ((List.range 64).map (· * 2)) 100 65 0 = some 50 := by
+  decide
+
 /-- Zone level (`zones_overlapping_ge/le`): a zone one of whose keys satisfies the bound is in the
 answer (for `le`: equal-length keys). Same PARTIAL caveats as above. -/
 theorem C08_zones_overlapping_sound_partial (zones : List (Nat × List (List Nat))) (z : Nat)
